@@ -175,7 +175,111 @@ def join_overlap_case(ctx, case):
     c19_auth.overlap_case(ctx, case)
 
 
-COMPONENTS = {'triple': triple_case, 'digest': digest_case,
+def repeated_request_case(ctx, case):
+    """'... the server id, the shared secret and the server's encoded public
+    key': the key (and the id) of the request being answered.  One login
+    reaction object is handed several encryption requests that name
+    different keys and ids (a server - or whoever sits between - asking
+    again); every join() it makes carries the hash over the id and key of
+    the request it answers and over the secret sent in that answer.  A
+    library that refuses a repeated request (any exception) makes no join
+    for it, which is not judged here.
+    case {version, requests: [(bits, encoding, server id)]}"""
+    from props import c10_login
+    from vlib import vnet
+    from minecraft.networking import connection as C
+    from minecraft.networking.packets import clientbound, \
+        serverbound as sb_
+    ctx.ev()
+    version = case['version']
+
+    class Quiet(servers_mod().Script):
+        def on_bytes(self, data):
+            pass
+    world = vnet.World(servers=[Quiet()])
+    world.block_guard = 0
+    tok = c10_login.Tok('Name')
+    secrets = []
+    want, refused = [], 0
+    try:
+        with vnet.installed(world):
+            conn = C.Connection('localhost', 25565, auth_token=tok,
+                                allowed_versions={version})
+            conn._connect()
+            conn.reactor = C.LoginReactor(conn)
+            cur = {}
+
+            def grab(p):
+                secrets.append(rsa.decrypt_pkcs1_v15(cur['k'],
+                                                     bytes(p.shared_secret)))
+            conn.register_packet_listener(
+                grab, sb_.login.EncryptionResponsePacket, outgoing=True,
+                early=True)
+            for bits, enc_, sid in case['requests']:
+                cur['k'] = rsa.key(bits)
+                der = rsa.key_encodings(bits)[enc_]
+                req = clientbound.login.EncryptionRequestPacket()
+                req.context = conn.context
+                req.server_id, req.public_key, req.verify_token = \
+                    sid, der, b'\x01\x02\x03\x04'
+                n_sec, n_join = len(secrets), len(tok.joins)
+                try:
+                    conn.reactor.react(req)
+                except Exception:
+                    if len(tok.joins) == n_join:
+                        refused += 1
+                        break
+                    raise
+                if len(secrets) != n_sec + 1:
+                    ctx.fail('repeated_request', 'J4-no-reply-to-request',
+                             case, len(secrets) - n_sec, 1)
+                    return
+                if sid != '-':
+                    want.append(rsa.java_hex(hashlib.sha1(
+                        sid.encode('utf-8') + secrets[-1] + der).digest()))
+    except Exception as e:
+        ctx.fail('repeated_request', 'J4-raises', case, exc=e)
+        return
+    if refused:
+        ctx.label('repeated_request_refused')
+    if tok.joins != want:
+        ctx.fail('repeated_request', 'J4-join-hash-of-the-request-answered',
+                 case, tok.joins, want)
+        return
+    if len(want) > 1:
+        ctx.nt('repeated_request', repr(case['requests']))
+    ctx.label('repeated_encryption_requests')
+
+
+def servers_mod():
+    from vlib import servers
+    return servers
+
+
+def t_repeated_request(ctx):
+    combos = [(1024, 'spki'), (2048, 'spki'), (1024, 'pkcs1'),
+              (2048, 'spki_no_null')]
+    ids = ['srv', '\u00e9', '', 'q' * 130]
+    k = 0
+    for v in (47, 340, 757):
+        for a in combos:
+            for b in combos:
+                k += 1
+                reqs = [a + (ids[k % 4],), b + (ids[(k + 1) % 4],)]
+                if k % 3 == 0:
+                    reqs.append(combos[k % 4] + (ids[(k + 2) % 4],))
+                if k % 5 == 0:
+                    reqs.insert(1, (1024, 'spki', '-'))
+                repeated_request_case(ctx, {'version': v, 'requests': reqs})
+    ctx.sample({'version': 757, 'requests': [(1024, 'spki', 'srv'),
+                                             (2048, 'spki', 'srv')]},
+               'repeated_request')
+    ctx.exhaustive_done('repeated encryption requests on one login '
+                        'reaction: 3 protocols x 16 key pairs')
+
+
+COMPONENTS = {'repeated_request': repeated_request_case,
+              'triple': triple_case, 'digest': digest_case,
               'vector': vector_case, 'login': login_case,
               'overlap': join_overlap_case}
 
@@ -337,7 +441,8 @@ def t_join_overlap(ctx):
 def tasks(tier):
     q = tier == 'quick'
     tl = [('fixed', t_fixed, {}), ('login_path', t_login_path, {}),
-          ('join_overlap', t_join_overlap, {})]
+          ('join_overlap', t_join_overlap, {}),
+          ('repeated_request', t_repeated_request, {})]
     for i, base in enumerate(['srv', 'ä', '']):
         tl.append(('search_%d' % i, t_search,
                    dict(base=base, budget=200000 if q else 3000000)))
